@@ -71,3 +71,107 @@ func runPK(c *Ctx, s *Sink) {
 		})
 	})
 }
+
+func init() {
+	register(&Rule{
+		ID: "PK-2", Props: []string{"C04", "C05"}, Min: 1,
+		Doc: `the filter put in front of a peek does not turn a stream of batches into a stream without any batch: in obiiter.IBioSequence.FilterEmpty some Push() is reachable for an empty batch
+— it is not inside the branch of a test that the batch holds records (a conjunction with Len() > 0 / != 0). A writer that numbers its header on batch 0 (WriteCSV with automatic columns) otherwise
+writes no header line for a result whose batches are all empty, where the same result without --auto has one.`,
+		Run: func(c *Ctx, s *Sink) {
+			fd, p := c.FindFunc("pkg/obiiter", "(IBioSequence).FilterEmpty")
+			key := "pkg/obiiter.IBioSequence.FilterEmpty:keeps-a-batch"
+			if fd == nil {
+				s.Undecided(nil, key, 0, "method not found")
+				return
+			}
+			info := p.TypesInfo
+			defs := collectDefs(info, fd)
+			// does the expression test that a batch length is positive
+			var lenPositive func(e ast.Expr) bool
+			isLen := func(e ast.Expr) bool {
+				e = ast.Unparen(e)
+				if id, ok := e.(*ast.Ident); ok {
+					for _, d := range defs[info.ObjectOf(id)] {
+						if call, ok := ast.Unparen(d).(*ast.CallExpr); ok {
+							if sel, ok := ast.Unparen(call.Fun).(*ast.SelectorExpr); ok && sel.Sel.Name == "Len" {
+								return true
+							}
+							if fid, ok := call.Fun.(*ast.Ident); ok && fid.Name == "len" {
+								return true
+							}
+						}
+					}
+					return false
+				}
+				if call, ok := e.(*ast.CallExpr); ok {
+					if sel, ok := ast.Unparen(call.Fun).(*ast.SelectorExpr); ok && sel.Sel.Name == "Len" {
+						return true
+					}
+					if fid, ok := call.Fun.(*ast.Ident); ok && fid.Name == "len" {
+						return true
+					}
+				}
+				return false
+			}
+			isZeroLit := func(e ast.Expr) bool {
+				bl, ok := ast.Unparen(e).(*ast.BasicLit)
+				return ok && bl.Value == "0"
+			}
+			lenPositive = func(e ast.Expr) bool {
+				b, ok := ast.Unparen(e).(*ast.BinaryExpr)
+				if !ok {
+					return false
+				}
+				switch b.Op.String() {
+				case "&&":
+					return lenPositive(b.X) || lenPositive(b.Y)
+				case ">", "!=":
+					return isLen(b.X) && isZeroLit(b.Y)
+				case ">=":
+					if bl, ok := ast.Unparen(b.Y).(*ast.BasicLit); ok && bl.Value == "1" {
+						return isLen(b.X)
+					}
+				case "<":
+					return isLen(b.Y) && isZeroLit(b.X)
+				}
+				return false
+			}
+			npush, free := 0, 0
+			var stack []ast.Node
+			ast.Inspect(fd.Body, func(n ast.Node) bool {
+				if n == nil {
+					stack = stack[:len(stack)-1]
+					return true
+				}
+				stack = append(stack, n)
+				call, ok := n.(*ast.CallExpr)
+				if !ok {
+					return true
+				}
+				if sel, ok := ast.Unparen(call.Fun).(*ast.SelectorExpr); !ok || sel.Sel.Name != "Push" {
+					return true
+				}
+				npush++
+				guarded := false
+				for k := len(stack) - 2; k >= 0; k-- {
+					if ifs, ok := stack[k].(*ast.IfStmt); ok && k+1 < len(stack) && stack[k+1] == ast.Node(ifs.Body) && lenPositive(ifs.Cond) {
+						guarded = true
+					}
+				}
+				if !guarded {
+					free++
+				}
+				return true
+			})
+			switch {
+			case npush == 0:
+				s.Undecided(nil, key, fd.Pos(), "no Push() in FilterEmpty")
+			case free == 0:
+				s.Fail(nil, key, fd.Pos(), "every Push() of FilterEmpty is under a test that the batch holds records: a stream whose batches are all empty becomes a stream without any batch — obicsv --auto then writes no header line where the same result without --auto has one, and a peeking writer cannot tell it from a stream that has not started")
+			default:
+				s.Pass(nil, key, fd.Pos(), fmt.Sprintf("%d of %d Push() reachable for an empty batch", free, npush))
+			}
+		},
+	})
+}
